@@ -170,6 +170,15 @@ def spellings(ctx, project, sp, rng):
         if ok:
             ctx.count("unloaded_document_spellings")
             yield "unloaded-document", signac.Project(project.path).open_job(carrier_sp).document
+            # ... and one that this handle loaded earlier, before the file got its present content through another handle
+            try:
+                project.open_job(carrier_sp).document.reset({"zz_earlier": [1, 2]})
+                held = signac.Project(project.path).open_job(carrier_sp).document
+                _ = held()
+                project.open_job(carrier_sp).document.reset(json.loads(json.dumps(sp)))
+                yield "document-loaded-before-last-change", held
+            except Exception:
+                ctx.count("synced_spelling_rejected")
             subs = [k for k, v in sp.items() if isinstance(v, dict) and v]
             if subs:
                 k = subs[0]
